@@ -5,10 +5,12 @@
 package drive
 
 import (
+	"bufio"
 	"bytes"
 	"errors"
 	"fmt"
 	"io"
+	"strings"
 
 	"github.com/gobwas/ws"
 	"github.com/gobwas/ws/wsutil"
@@ -37,6 +39,36 @@ type Opts struct {
 	OnHeader func(h ws.Header, rd *wsutil.Reader)
 	// MaxEvents stops the driver after that many events (0 = until error).
 	MaxEvents int
+	// Wrap puts the transport behind another kind of io.Reader before the library
+	// sees it (see Wraps); "" = as given.
+	Wrap string
+}
+
+// Wraps are the kinds of source an application may hand to the readers: what
+// they deliver must not depend on the concrete type (or the optional
+// interfaces) of the source.
+var Wraps = []string{"", "bufio16", "bufio4096", "bufio37-used", "read-only"}
+
+type readOnly struct{ r io.Reader }
+
+func (r readOnly) Read(p []byte) (int, error) { return r.r.Read(p) }
+
+// WrapSource applies a Wraps kind to src.
+func WrapSource(src io.Reader, kind string) io.Reader {
+	switch kind {
+	case "bufio16":
+		return bufio.NewReaderSize(src, 16)
+	case "bufio4096":
+		return bufio.NewReaderSize(src, 4096)
+	case "bufio37-used":
+		// a buffered reader whose buffer is part-consumed when the first frame comes
+		br := bufio.NewReaderSize(io.MultiReader(strings.NewReader("0123456789ab"), src), 37)
+		io.ReadFull(br, make([]byte, 12))
+		return br
+	case "read-only":
+		return readOnly{src}
+	}
+	return src
 }
 
 // Obs is what the consumer observed.
@@ -103,6 +135,7 @@ func (s *sink) Write(p []byte) (int, error) { s.b = append(s.b, p...); return le
 
 // Run drives src through the chosen entry point until an error ends it.
 func Run(src io.Reader, o Opts) (obs Obs) {
+	src = WrapSource(src, o.Wrap)
 	if o.Buf <= 0 {
 		o.Buf = 4096
 	}
